@@ -112,6 +112,19 @@ pub fn lookup_path(rng: &mut Rng, spec: &TreeSpec) -> Vec<u8> {
 }
 
 /// Path for a creating operation: an existing directory plus a (usually) new name.
+/// Open flags beyond the access mode for `create_file` (the property quantifies over all open flags).
+pub fn exotic_open_flags(rng: &mut Rng) -> i32 {
+    match rng.below(12) {
+        0 | 1 => libc::O_PATH,
+        2 => libc::O_PATH | libc::O_DIRECTORY,
+        3 => libc::O_DIRECTORY,
+        4 => libc::O_NOFOLLOW | libc::O_CLOEXEC,
+        5 => libc::O_TMPFILE,
+        6 => libc::O_NOATIME | libc::O_NOCTTY,
+        _ => 0,
+    }
+}
+
 pub fn create_path(rng: &mut Rng, spec: &TreeSpec) -> Vec<u8> {
     if rng.chance(1, 6) {
         return lookup_path(rng, spec);
@@ -367,7 +380,8 @@ pub fn gen_single_valid(rng: &mut Rng, spec: &TreeSpec) -> Op {
             path: if rng.chance(1, 2) { spell(rng, spec, &e.path) } else { fresh(rng) },
             flags: *rng.pick(&[libc::O_RDONLY, libc::O_WRONLY, libc::O_RDWR | libc::O_TRUNC, libc::O_WRONLY | libc::O_EXCL])
                 // never block on a fifo of the tree
-                | if spec.entries.iter().any(|e| e.kind == Kind::Fifo) { libc::O_NONBLOCK } else { 0 },
+                | if spec.entries.iter().any(|e| e.kind == Kind::Fifo) { libc::O_NONBLOCK } else { 0 }
+                | exotic_open_flags(rng),
             mode: 0o644,
         },
     }
@@ -433,7 +447,9 @@ pub fn gen_op(rng: &mut Rng, spec: &TreeSpec) -> Op {
                 if has_fifo {
                     fl |= libc::O_NONBLOCK;
                 }
-                fl
+                // flags that change what the O_CREAT open means: O_PATH makes the kernel ignore O_CREAT altogether
+                // (so the final-component checks of a creating open are gone), O_DIRECTORY|O_CREAT and O_TMPFILE are refused
+                fl | exotic_open_flags(rng)
             },
             mode: *rng.pick(&[0o644, 0o600, 0o755]),
         },
